@@ -144,41 +144,48 @@ Fixpoint cc_run (H : string -> string) (cch : cache) (h : list cc_cfg) : list sr
 (* ------------------------------------------------------------------ RFC 7234 cache of an endpoint (httpcache.RoundTripper) *)
 
 (** One endpoint with `http_cache.enabled`.  [hc_vary]: the request header names
-    the server lists in `Vary`; the harness's server is honest about it: its
-    response body is made of exactly these headers of the request.
+    the server lists in `Vary`.  The harness's server is honest: its response is
+    made of exactly these request headers and, for POST, of the request body.
     [hc_cacheable]: the response carries freshness information and no no-store
-    (the RFC 7234 parser is an oracle).  [fx8]: candidate repair — responses that
-    carry a Vary header are not stored. *)
+    (the RFC 7234 parser is an oracle; it accepts responses to GET and to POST). *)
 Record hc_cfg := { hc_url : string; hc_method : string; hc_vary : list string; hc_cacheable : bool }.
+
+Record hc_req := { hq_headers : alist; hq_body : string }.
 
 Definition hc_fields (c : hc_cfg) : list fld := [FV "RFC 7234"; FV (hc_url c); FV (hc_method c)].
 
 Definition hc_key (H : string -> string) (c : hc_cfg) : string := hex (H (cat (hc_fields c))).
 
-Definition hc_body (c : hc_cfg) (hdrs : alist) : string :=
+Definition hc_vary_part (c : hc_cfg) (q : hc_req) : string :=
   match hc_vary c with
   | [] => "static"
-  | v => join "|" (map (fun n => or_default "" (lookup n hdrs)) v)
+  | v => join "|" (map (fun n => or_default "" (lookup n (hq_headers q))) v)
   end.
 
-Definition hc_stores (fx8 : bool) (c : hc_cfg) : bool :=
-  hc_cacheable c && String.eqb (hc_method c) "GET" && negb (fx8 && negb (is_nil (hc_vary c))).
+Definition hc_is_post (c : hc_cfg) : bool := String.eqb (hc_method c) "POST".
 
-Definition hc_result (c : hc_cfg) (hdrs : alist) : result :=
+Definition hc_body (c : hc_cfg) (q : hc_req) : string :=
+  (hc_vary_part c q ++ (if hc_is_post c then "#" ++ hq_body q else ""))%string.
+
+(** [fx8]: candidate repair — responses with a Vary header and responses to POST are not stored *)
+Definition hc_stores (fx8 : bool) (c : hc_cfg) : bool :=
+  hc_cacheable c && negb (fx8 && (negb (is_nil (hc_vary c)) || hc_is_post c)).
+
+Definition hc_result (c : hc_cfg) (q : hc_req) : result :=
   {| rs_sent := {| s_url := hc_url c; s_method := hc_method c; s_headers := []; s_cookies := []; s_auth := "";
-                   s_body := hc_body c hdrs |};
+                   s_body := hc_body c q |};
      rs_sub := ""; rs_scopes := [] |}.
 
 (** RoundTrip: the key is always looked up; a response is stored when cacheable *)
-Definition hc_exec (fx8 : bool) (H : string -> string) (c : hc_cfg) (cch : cache) (hdrs : alist) : sres * cache :=
+Definition hc_exec (fx8 : bool) (H : string -> string) (c : hc_cfg) (cch : cache) (q : hc_req) : sres * cache :=
   let k := hc_key H c in
   match lookup k cch with
   | Some r => ({| sr_key := Some k; sr_hit := true; sr_calls := 0; sr_out := OAllow r |}, cch)
-  | None => ({| sr_key := Some k; sr_hit := false; sr_calls := 1; sr_out := OAllow (hc_result c hdrs) |},
-             if hc_stores fx8 c then (k, hc_result c hdrs) :: cch else cch)
+  | None => ({| sr_key := Some k; sr_hit := false; sr_calls := 1; sr_out := OAllow (hc_result c q) |},
+             if hc_stores fx8 c then (k, hc_result c q) :: cch else cch)
   end.
 
-Fixpoint hc_run (fx8 : bool) (H : string -> string) (c : hc_cfg) (cch : cache) (h : list alist) : list sres :=
+Fixpoint hc_run (fx8 : bool) (H : string -> string) (c : hc_cfg) (cch : cache) (h : list hc_req) : list sres :=
   match h with
   | [] => []
   | x :: r => let '(y, cch') := hc_exec fx8 H c cch x in y :: hc_run fx8 H c cch' r
